@@ -260,28 +260,111 @@ def new (file : Bytes) (_len : Nat) : Res (CfbSt × Bytes) := do
 /-- `Cfb::has_directory` -/
 def hasDirectory (c : CfbSt) (name : List Char) : Bool := c.dirs.any (fun d => d.name = name)
 
+/-- the `Some(d)` arm of `Cfb::get_stream`: streams shorter than 4096 bytes are read from the mini stream
+    (64-byte mini sectors, mini FAT), the others from the regular sectors -/
+def getStreamAt (c : CfbSt) (d : Dir) (rd : Bytes) : Res (Bytes × CfbSt × Bytes) :=
+  if d.len < 4096 then
+    match c.mini.getChain d.start c.miniFats rd d.len with
+    | .ok (x, m', rd') => .ok (x, { c with mini := m' }, rd')
+    | .err e => .err e
+    | .panic e => .panic e
+    | .outOfFuel => .outOfFuel
+  else
+    match c.sectors.getChain d.start c.fats rd d.len with
+    | .ok (x, s', rd') => .ok (x, { c with sectors := s' }, rd')
+    | .err e => .err e
+    | .panic e => .panic e
+    | .outOfFuel => .outOfFuel
+
 /-- `Cfb::get_stream` -/
 def getStream (c : CfbSt) (name : List Char) (rd : Bytes) : Res (Bytes × CfbSt × Bytes) :=
   match c.dirs.find? (fun d => d.name = name) with
   | none => .err "notfound"
-  | some d =>
-    if d.len < 4096 then
-      match c.mini.getChain d.start c.miniFats rd d.len with
-      | .ok (x, m', rd') => .ok (x, { c with mini := m' }, rd')
-      | .err e => .err e
-      | .panic e => .panic e
-      | .outOfFuel => .outOfFuel
-    else
-      match c.sectors.getChain d.start c.fats rd d.len with
-      | .ok (x, s', rd') => .ok (x, { c with sectors := s' }, rd')
-      | .err e => .err e
-      | .panic e => .panic e
-      | .outOfFuel => .outOfFuel
+  | some d => getStreamAt c d rd
 
 /-- open the container and read one stream (what `Xls::new` / `VbaProject::new` do) -/
 def readStream (file : Bytes) (name : List Char) : Res Bytes := do
   let (c, rd) ← new file file.length
   let (x, _, _) ← getStream c name rd
   pure x
+
+/-- the reader as a name → content function (what `VbaProject::from_cfb` and `Xls` use it for) -/
+def lookupOf (c : CfbSt) (rd : Bytes) (name : List Char) : Option Bytes :=
+  match getStream c name rd with
+  | .ok (x, _, _) => some x
+  | _ => none
+
+/-! ## cost: number of `Sectors::get` calls (each is a slice of the cache plus, at most once per byte of the
+    file, a read). The functions mirror the loops above call by call. -/
+
+def Sectors.chainLoopCost (fats : List Nat) : (remaining : Nat) → (id : Nat) → Sectors → Bytes → (acc : Nat) → Nat
+  | 0, _, _, _, _ => 0
+  | rem + 1, id, s, rd, acc =>
+    if id = ENDOFCHAIN then 0 else
+    match fats[id]? with
+    | none => 0
+    | some next =>
+      let r := s.get id rd
+      if acc + r.1.length > r.2.1.data.length then 1
+      else 1 + chainLoopCost fats rem next r.2.1 r.2.2 (acc + r.1.length)
+
+def Sectors.getChainCost (s : Sectors) (start : Nat) (fats : List Nat) (rd : Bytes) : Nat :=
+  Sectors.chainLoopCost fats fats.length start s rd 0
+
+def difatLoopCost : (fuel : Nat) → (id : Nat) → List Nat → Sectors → Bytes → (count : Nat) → Nat
+  | 0, _, _, _, _, _ => 0
+  | fuel + 1, id, difat, s, rd, count =>
+    if id < RESERVED then
+      let r := s.get id rd
+      if r.1.length ≠ s.size then 1
+      else
+        let d := difat ++ u32s r.1
+        if (count + 1) * s.size > r.2.1.data.length then 1
+        else 1 + difatLoopCost fuel (d.getLastD 0) d.dropLast r.2.1 r.2.2 (count + 1)
+    else 0
+
+def loadFatsCost : List Nat → Sectors → Bytes → (acc : Nat) → Nat
+  | [], _, _, _ => 0
+  | id :: ids, s, rd, acc =>
+    if id < DIFSECT then
+      let r := s.get id rd
+      if (acc + (u32s r.1).length) * 4 > r.2.1.data.length then 1
+      else 1 + loadFatsCost ids r.2.1 r.2.2 (acc + (u32s r.1).length)
+    else loadFatsCost ids s rd acc
+
+/-- sector reads of `Cfb::new` -/
+def newCost (file : Bytes) : Nat :=
+  match Header.fromReader file with
+  | .ok (h, difat0, rd) =>
+    let c1 := difatLoopCost (file.length + 1) h.difatStart difat0 ⟨[], h.sectorSize⟩ rd 0
+    match difatLoop (file.length + 1) h.difatStart difat0 ⟨[], h.sectorSize⟩ rd 0 with
+    | .ok (difat, s1, rd1) =>
+      let c2 := loadFatsCost difat s1 rd1 0
+      match loadFats difat s1 rd1 0 with
+      | .ok (fats, s2, rd2) =>
+        let c3 := s2.getChainCost h.dirStart fats rd2
+        match s2.getChain h.dirStart fats rd2 (h.dirLen * h.sectorSize) with
+        | .ok (dirBytes, s3, rd3) =>
+          match parseDirs h.sectorSize (chunksExact 128 dirBytes) with
+          | .ok (root :: _) =>
+            if h.miniFatLen > 0 then
+              let c4 := s3.getChainCost root.start fats rd3
+              match s3.getChain root.start fats rd3 root.len with
+              | .ok (_, s4, rd4) => c1 + c2 + c3 + c4 + s4.getChainCost h.miniFatStart fats rd4
+              | _ => c1 + c2 + c3 + c4
+            else c1 + c2 + c3
+          | _ => c1 + c2 + c3
+        | _ => c1 + c2 + c3
+      | _ => c1 + c2
+    | _ => c1
+  | _ => 0
+
+/-- sector reads of `Cfb::get_stream` -/
+def getStreamCost (c : CfbSt) (name : List Char) (rd : Bytes) : Nat :=
+  match c.dirs.find? (fun d => d.name = name) with
+  | none => 0
+  | some d =>
+    if d.len < 4096 then c.mini.getChainCost d.start c.miniFats rd
+    else c.sectors.getChainCost d.start c.fats rd
 
 end Cfb
